@@ -315,7 +315,10 @@ mod sc {
     // renderer: shell text (+ the files the `.` built-in reads)
 
     pub struct Render { rng: Rng, pub files: Vec<(String, String)>, /// the command may be rendered inside a loop: `break`/`continue` are no errors there
-        pub maybe_in_loop: bool }
+        pub maybe_in_loop: bool,
+        /// the case runs with the `Interactive` option on: `exec no_such_command` does not abort such a shell
+        /// (yash-builtin/src/exec.rs), so the Abort body is rendered by the harness built-in only
+        pub interactive: bool }
 
     impl Render {
         fn pick<'a>(&mut self, xs: &[&'a str]) -> &'a str { xs[self.rng.below(xs.len())] }
@@ -351,7 +354,7 @@ mod sc {
                     else { format!("b_{ty} res {n}") }
                 }
                 Body::Resd(n, d) => {
-                    if *d == "abort" && *n == 127 {
+                    if *d == "abort" && *n == 127 && !self.interactive {
                         self.pick(&["exec no_such_command_xyz", "exec /nonexistent/cmd"]).to_string()
                     } else { format!("b_{ty} resd {n} {d}") }
                 }
@@ -427,7 +430,7 @@ mod sc {
 hret0() { probe 7; return 0; probe 8; }\nhret1() { probe 7; return 1; probe 8; }\nhret3() { probe 7; return 3; probe 8; }\n";
 
     pub fn render(c: &Case) -> (String, Vec<(String, String)>) {
-        let mut r = Render { rng: Rng::new(c.seed ^ 0x5C), files: vec![], maybe_in_loop: false };
+        let mut r = Render { rng: Rng::new(c.seed ^ 0x5C), files: vec![], maybe_in_loop: false, interactive: c.interactive };
         let mut out = String::from(PROLOGUE);
         if c.errexit { out.push_str(r.pick(&["set -e\n", "set -o errexit\n"])); }
         if let Some(t) = &c.trap {
@@ -1059,7 +1062,7 @@ hret0() { probe 7; return 0; probe 8; }\nhret1() { probe 7; return 1; probe 8; }
             }
         }
         pub fn render(c: &NCase) -> (String, Vec<(String, String)>) {
-            let mut r = NRender { r: Render { rng: Rng::new(c.seed ^ 0x9C), files: vec![], maybe_in_loop: true }, funcs: vec![] };
+            let mut r = NRender { r: Render { rng: Rng::new(c.seed ^ 0x9C), files: vec![], maybe_in_loop: true, interactive: false }, funcs: vec![] };
             let mut body = String::new();
             for l in &c.lines {
                 match l {
